@@ -81,7 +81,7 @@ func (ts *TS) Run(fn *ssa.Function, initA string, env Env) []TSOut {
 		ts.memo = map[string][]TSOut{}
 	}
 	if ts.MaxDepth == 0 {
-		ts.MaxDepth = 5
+		ts.MaxDepth = 8
 	}
 	if env == nil {
 		env = Env{}
